@@ -136,6 +136,8 @@ type scenario struct {
 	// after[t]: thread t takes its first step only when these threads have ended (one writer issuing
 	// its calls one after the other = a chain); nil = no constraint
 	after map[int][]int
+	// the equivalence the Value and the Collection are constructed with (cfg.go); nil = none
+	cfg *rcfg
 }
 
 // ---------- one forced run ----------
@@ -185,11 +187,17 @@ func newWorld(sc *scenario) *world {
 	if sc.vinit != nil {
 		vopts = append(vopts, resource.WithInitialValue(toProto(*sc.vinit)))
 	}
+	if sc.cfg != nil {
+		vopts = append(vopts, sc.cfg.option())
+	}
 	w.val = resource.NewValue(vopts...)
 	w.rng = &gidRNG{bufs: map[int64][][]byte{}}
 	copts := []resource.Option{resource.WithClock(&fakeClock{}), resource.WithRNG(w.rng)}
 	if sc.idLower {
 		copts = append(copts, resource.WithIDInterceptor(asciiLower))
+	}
+	if sc.cfg != nil {
+		copts = append(copts, sc.cfg.option())
 	}
 	w.coll = resource.NewCollection(copts...)
 	w.idLower = sc.idLower
@@ -980,6 +988,12 @@ func emitCase(o *vcoq.Out, sc *scenario, r *runResult, extraTags []string) {
 	}
 	term := vcoq.App("CaseSched", "None", coqOptMsg(sc.vinit), vcoq.List(cinit), vcoq.List(prog), coqNats(r.sched),
 		vcoq.List(res), coqOptMsg(r.finalV), coqKVs(r.finalC), vcoq.List(vs), vcoq.List(cs), coqNats(r.closed))
+	var jcfg any = "none"
+	if sc.cfg != nil {
+		term = vcoq.App("CaseCfg", sc.cfg.coq(), "None", coqOptMsg(sc.vinit), vcoq.List(cinit), vcoq.List(prog), coqNats(r.sched),
+			vcoq.List(res), coqOptMsg(r.finalV), coqKVs(r.finalC), vcoq.List(vs), vcoq.List(cs), coqNats(r.closed))
+		jcfg = sc.cfg.js()
+	}
 	tags := append([]string{}, sc.tags...)
 	tags = append(tags, extraTags...)
 	lost := false
@@ -998,7 +1012,7 @@ func emitCase(o *vcoq.Out, sc *scenario, r *runResult, extraTags []string) {
 	tags = append(tags, fmt.Sprintf("threads:%d", len(sc.prog)), fmt.Sprintf("steps:%d", len(r.sched)))
 	o.Add(vcoq.Case{
 		Coq: term,
-		JSON: map[string]any{"value_initial": jsMsg(sc.vinit), "collection_initial": jinit, "program": jsProg(sc),
+		JSON: map[string]any{"resource_equivalence": jcfg, "value_initial": jsMsg(sc.vinit), "collection_initial": jinit, "program": jsProg(sc),
 			"schedule": r.sched, "results": jres, "final_get": jsMsg(r.finalV), "final_list": jsKVs(r.finalC),
 			"value_streams": jvs, "collection_streams": jcs, "pullid_closed": r.closed},
 		Key:        term,
@@ -1195,6 +1209,7 @@ func genC02(o *vcoq.Out, r *vcoq.Rand, tier string) error {
 		emitCase(o, sc, rr, nil)
 	}
 	genIDCases(o, r, tier, base)
+	genCfgCases(o, r, tier, base)
 	if tier == "thorough" {
 		stress(o, r, base)
 	}
